@@ -73,4 +73,19 @@ theorem goRange_cons {α ρ σ : Type} (x : α) (xs : List α) (init : σ) (body
       | .next s => goRange xs s body after
       | .brk s => after s := rfl
 
+/-- a loop whose body always goes on is a fold -/
+theorem goRange_fold {α ρ σ : Type} (l : List α) (s0 : σ) (body : σ → α → LoopStep ρ σ) (after : σ → ρ)
+    (step : σ → α → σ) (h : ∀ s x, body s x = .next (step s x)) :
+    goRange l s0 body after = after (l.foldl step s0) := by
+  induction l generalizing s0 with
+  | nil => rfl
+  | cons x xs ih => rw [goRange_cons, h s0 x]; exact ih _
+
+/-- no operation on the file system fails -/
+def NoIOErr (ext : Ext) : Prop := ∀ h op, ext.ioErr h op = none
+
+theorem goEffect_noErr {ext : Ext} (hio : NoIOErr ext) (h : List GoFOp) (op : GoFOp) :
+    goEffect ext h op = (h ++ [op], none) := by
+  unfold goEffect; rw [hio h op]
+
 end Dtail.Go
